@@ -84,6 +84,7 @@ def replay(kind, argv):
     if argv:
         patches = [p for p in patches if any(a in p for a in argv)]
     results = {}
+    detail = {}
     import queue
     slots = queue.Queue()
     for k in range(jobs):
@@ -95,7 +96,8 @@ def replay(kind, argv):
             meta = parse_header(p)
         else:
             mj = json.load(open(os.path.join(os.path.dirname(p), 'meta.json')))
-            meta = {'property': [mj['property']] + mj.get('also_check', []), 'expect': mj.get('expect', []), 'also-ok': []}
+            allp = ['C%02d' % k for k in range(1, 21)]
+            meta = {'property': [mj['property']] + [x for x in allp if x != mj['property']], 'expect': mj.get('expect', []), 'also-ok': [], 'own': mj['property']}
         props = meta['property']
         slot = slots.get()
         try:
@@ -117,7 +119,10 @@ def replay(kind, argv):
             exp_ok = all(any(e in k for k in allkeys) for e in exp) if exp else bool(detected)
             novd = [pr for pr in res if res[pr]['rc'] == 2]
             status = 'DETECTED' if (detected and exp_ok) else ('WRONG-RULE' if detected else ('NO-VERDICT' if novd else 'MISSED'))
+            if meta.get('own') and status == 'DETECTED' and meta['own'] not in detected:
+                status = 'OTHER-PROP'
             results[name] = status
+            detail[name] = {pr: res[pr]['keys'] for pr in res if res[pr]['keys']}
             print('%-50s %-10s by=%s keys=%s' % (name, status, ','.join(detected), '; '.join(k[:100] for k in allkeys[:4])))
             for pr in novd:
                 print(res[pr]['out'][-1500:])
@@ -127,6 +132,8 @@ def replay(kind, argv):
     os.makedirs(os.path.join(VERIF, 'out', 'selftest'), exist_ok=True)
     with open(os.path.join(VERIF, 'out', 'selftest', kind + '.json'), 'w') as fh:
         json.dump(results, fh, indent=1)
+    with open(os.path.join(VERIF, 'out', 'selftest', kind + '-detail.json'), 'w') as fh:
+        json.dump(detail, fh, indent=1)
     return 0 if d == n else 3
 
 
